@@ -441,7 +441,8 @@ theorem voidNormF_ink (names : List (List B)) : ∀ (fuel : Nat) (s : List B), i
 theorem voidNorm_ink (s : List B) : ink (voidNorm s) = ink s := voidNormF_ink _ _ s
 
 /-- **mj-text, end to end**: for content that does not begin with a CDATA section and has no no-break space, the inner HTML
-    the component writes (`TextFlow.textInner` of what the XML layer delivered) keeps every byte of the author's content that is
+    the component builds (`TextFlow.textInner` of what the XML layer delivered; the void-tag respelling behind it has its own
+    theorem) keeps every byte of the author's content that is
     not white space, in order — through the pre-pass (void tags, `]]>` escaping), the CDATA decoding and the white-space
     collapsing -/
 theorem text_end_to_end (inner : List B) (h : cdStart.isPrefixOf (inner.dropWhile Gomjml.Passes.isWs) = false)
